@@ -375,6 +375,8 @@ fn main() {
         "corpus" => {
             let c = corpus::harvest(Path::new(&a.get("repo", "/repo")));
             println!("sites={} distinct={} by_origin={:?}", c.sites, c.inputs.len(), c.by_origin);
+            println!("template idents (type-like): {:?}", c.template_idents.0);
+            println!("template idents (value-like): {:?}", c.template_idents.1);
             if a.map.contains_key("dump") {
                 for i in &c.inputs {
                     println!("// {} [{}]\n{}\n", i.origin, i.name, i.text);
@@ -384,6 +386,7 @@ fn main() {
         },
         "gen" => {
             std::panic::set_hook(Box::new(|_| {}));
+            let _ = corpus::harvest(Path::new(&a.get("repo", "/repo")));
             let mut rng = prng::Rng::new(a.u64("seed", 1));
             for k in 0..a.u64("n", 5) {
                 let opts = gen::GenOpts { error_pct: a.u64("error-pct", 15), into_heavy: rng.chance(3, 10) };
